@@ -1205,7 +1205,26 @@ def m_str_isdigit(eng, st, recv, args, kwargs):
     return ok(st, VBool(z3.And(z3.Length(s) > 0, z3.InRe(s, z3.Plus(z3.Range("0", "9"))))))
 
 
-STR_METHODS = {"endswith": m_str_endswith, "startswith": m_str_startswith, "removesuffix": m_str_removesuffix,
+def _str_fold(fname):
+    """casefold / lower / upper: an uninterpreted total function on strings (all that is used: equal inputs give equal outputs;
+    two different strings *may* fold to the same one)."""
+    f = z3.Function("str_" + fname, StrS, StrS)
+
+    def impl(eng, st, recv, args, kwargs):
+        return ok(st, VStr(f(recv.e)))
+    return impl
+
+
+def m_bytes_startswith(eng, st, recv, args, kwargs):
+    return ok(st, VBool(z3.PrefixOf(args[0].e, recv.e)))
+
+
+def m_bytes_endswith(eng, st, recv, args, kwargs):
+    return ok(st, VBool(z3.SuffixOf(args[0].e, recv.e)))
+
+
+BYTES_METHODS.update({"startswith": m_bytes_startswith, "endswith": m_bytes_endswith})
+STR_METHODS = {"casefold": _str_fold("casefold"), "lower": _str_fold("lower"), "upper": _str_fold("upper"), "endswith": m_str_endswith, "startswith": m_str_startswith, "removesuffix": m_str_removesuffix,
                "partition": m_str_partition, "join": m_str_join, "title": m_str_title, "isdigit": m_str_isdigit}
 
 
